@@ -5,7 +5,7 @@ import (
 
 	"gonum.org/v1/gonum/blas/gonum"
 
-	"verif/harness/internal/core"
+	"gonum.org/v1/gonum/verifharness/internal/core"
 )
 
 // strided (BLAS level 1) forms. The specification prints whole backing arrays (guard value 777
